@@ -50,6 +50,7 @@ typedef struct blk {
 } blk;
 
 #define BLK_MAGIC 0xC150C150B10CB10CULL
+extern int al_reuse;           /* serve requests from the most recently released block of the same size (LIFO allocator) */
 extern long al_live;           /* live blocks */
 extern long al_allocs;         /* requests in the current call window */
 extern long al_fail_at;        /* fail the n-th request of the window (0 = never) */
